@@ -2,7 +2,7 @@
 import ast
 from sa.index import AnalysisError, FuncInfo
 from sa.paths import call_name
-from rules.common import returned_values, cmp_text, Quiet, txt, paths_of, loc, tests_on, strip_not, check_none_default
+from rules.common import with_helpers, returned_values, cmp_text, Quiet, txt, paths_of, loc, tests_on, strip_not, check_none_default
 
 CLS = 'cacheutils.ThresholdCounter'
 SPEC = {
@@ -64,7 +64,8 @@ def run(ctx):
     ctx.ob('T19a', mc.fq, 'a path on which `n is None` holds returns the full sorted list (not cut, not empty)', ok_all,
            loc=mc.loc)
     # sort: by count only, descending
-    sorts = [n for n in ast.walk(mc.node) if isinstance(n, ast.Call) and call_name(n) in ('sorted',) or
+    mc_scope = with_helpers(prog, mc, ci)
+    sorts = [n for f_ in mc_scope for n in ast.walk(f_.node) if isinstance(n, ast.Call) and call_name(n) in ('sorted',) or
              (isinstance(n, ast.Call) and isinstance(n.func, ast.Attribute) and n.func.attr == 'sort')]
     ok = bool(sorts)
     det = ''
@@ -95,12 +96,15 @@ def run(ctx):
     # T19b: mapping probe
     up = prog.func(CLS + '.update')
     probes = []
-    for n in ast.walk(up.node):
-        if isinstance(n, ast.Call) and call_name(n) in ('getattr', 'hasattr') and len(n.args) >= 2 and \
-                isinstance(n.args[1], ast.Constant) and txt(n.args[0]) == 'iterable':
-            probes.append(n)
-        if isinstance(n, ast.Call) and call_name(n) == 'isinstance' and n.args and txt(n.args[0]) == 'iterable':
-            probes.append(n)
+    for f_ in with_helpers(prog, up, ci):
+        # the source parameter, under the name it has in f_ (first non-self parameter of a helper it is handed to)
+        srcname = 'iterable' if f_ is up else (f_.params[1] if len(f_.params) > 1 else None)
+        for n in ast.walk(f_.node):
+            if isinstance(n, ast.Call) and call_name(n) in ('getattr', 'hasattr') and len(n.args) >= 2 and \
+                    isinstance(n.args[1], ast.Constant) and txt(n.args[0]) == srcname:
+                probes.append(n)
+            if isinstance(n, ast.Call) and call_name(n) == 'isinstance' and n.args and txt(n.args[0]) == srcname:
+                probes.append(n)
     for pr in probes:
         if call_name(pr) == 'isinstance':
             ok = True
@@ -259,7 +263,7 @@ def run(ctx):
         ctx.unknown('T9.addall', up.fq, 'no element step found in update()', up.loc)
     # most_common: every answer is the count-sorted list, a prefix of it, or the empty list for n <= 0
     mc = prog.func(CLS + '.most_common')
-    for e, p, wm in returned_values(prog, mc, recv=ci):
+    for e, p, wm in returned_values(prog, mc, recv=ci, model=Inl(prog)):
         t = txt(e)
         ts = tests_on(wm, p)
         nonpos = any(cmp_text(o.node, 'n') == 'n <= 0' and o.info is True for _, _, o in ts) or \
@@ -277,7 +281,7 @@ def run(ctx):
     for name, via in (('items', 'iteritems'), ('values', 'itervalues'), ('keys', 'iterkeys'), ('elements', 'iteritems'),
                       ('most_common', 'iteritems'), ('get', '__getitem__')):
         f = prog.func(CLS + '.' + name)
-        t = ast.unparse(f.node)
+        t = ' '.join(ast.unparse(f2.node) for f2 in with_helpers(prog, f, ci))
         ok = ('self.%s(' % via) in t or (via == '__getitem__' and 'self[key]' in t)
         ctx.ob('T17.views', f.fq, 'derived from %s (same counts)' % via, ok, loc=f.loc)
     for r, n in (('T19a', 2), ('T19b', 1), ('T11', 2), ('T9.total', 2), ('T7.compact', 1), ('T17', 1), ('T17.views', 8),
